@@ -115,10 +115,10 @@ def required_get(p0: bool, p1: bool, p2: bool, p3: bool, p4: bool, p5: bool, p6:
 
 def required_others(which: int, a: bool, b: bool, c: bool) -> bool:
     """
-    pre: 0 <= which <= 4
+    pre: 0 <= which <= 5
     post: _
     """
-    which = conc(which, 0, 4)
+    which = conc(which, 0, 5)
     a, b, c = bool(a), bool(b), bool(c)
     with untraced():
         # (class, required non-path non-body keys with defaults, an optional key)
@@ -126,7 +126,8 @@ def required_others(which: int, a: bool, b: bool, c: bool) -> bool:
                             ("_BasePostThing", [], "extra"),                       # body '*': nothing is a query param
                             ("_BasePatchThing", [("rStr", "")], None),             # book.name in path, book is the body
                             ("_BaseDeleteThing", [("etag", ""), ("rev", 0)], None),   # rev: required + proto3 optional
-                            ("_BaseTwoVars", [("view", "")], None)][which]
+                            ("_BaseTwoVars", [("view", "")], None),
+                            ("_BaseListThings", [], "page")][which]                # no required field at all
         q = {}
         if a and req:
             q[req[0][0]] = "set"
